@@ -19,21 +19,28 @@ if os.path.abspath(src) != os.path.abspath(dst):
     for f in ("patch.diff", "demo.py", "meta.json"):
         if os.path.exists(os.path.join(src, f)):
             shutil.copy(os.path.join(src, f), dst)
-env = dict(os.environ, PYTHONPATH="/repo", MPLBACKEND="Agg")
+# With --scratch the change is applied to a scratch git worktree of /repo's HEAD (outside /repo and /verif) and the SAME checks are
+# pointed at it through VERIF_REPO, so that /repo itself stays untouched (needed while background runs use /repo).
+SCRATCH = "--scratch" in sys.argv
+TREE = "/repo"
+if SCRATCH:
+    TREE = "/tmp/seedrepo_%d" % os.getpid()
+    subprocess.run(f"git -C /repo worktree add -q --detach {TREE} HEAD", shell=True, check=True)
+env = dict(os.environ, PYTHONPATH=TREE, MPLBACKEND="Agg")
 
 
 def sh(cmd, **kw):
     return subprocess.run(cmd, shell=True, stdout=subprocess.PIPE, stderr=subprocess.STDOUT, text=True, **kw)
 
 
-assert sh("git -C /repo status --porcelain --untracked-files=no").stdout.strip() == "", "repo not clean"
-res = {"ran_at_repo_commit": sh("git -C /repo rev-parse --short HEAD").stdout.strip(), "tier": tier}
+assert sh(f"git -C {TREE} status --porcelain --untracked-files=no").stdout.strip() == "", "repo not clean"
+res = {"tree": "scratch worktree via VERIF_REPO" if SCRATCH else "/repo", "ran_at_repo_commit": sh("git -C /repo rev-parse --short HEAD").stdout.strip(), "tier": tier}
 demo = os.path.join(dst, "demo.py")
 d0 = subprocess.run(["/venv/bin/python", demo], env=env, cwd="/tmp", stdout=subprocess.PIPE, stderr=subprocess.STDOUT, text=True, timeout=600)
 res["demo_exit_without_change"] = d0.returncode
-ap = sh(f"git -C /repo apply {dst}/patch.diff")
+ap = sh(f"git -C {TREE} apply {dst}/patch.diff")
 if ap.returncode != 0:
-    ap = sh(f"git -C /repo apply --3way {dst}/patch.diff")
+    ap = sh(f"git -C {TREE} apply --3way {dst}/patch.diff")
 res["patch_applies"] = ap.returncode == 0
 try:
     if ap.returncode == 0:
@@ -41,18 +48,20 @@ try:
         res["demo_exit_with_change"] = d1.returncode
         res["demo_output_tail"] = d1.stdout[-400:]
         if "--no-tests" not in sys.argv:
-            t = sh("cd /repo && env -u INFERENCE_TOOLS_VERIF /venv/bin/python -m pytest -q -p no:cacheprovider -x 2>&1 | tail -1")
+            t = sh(f"cd {TREE} && env -u INFERENCE_TOOLS_VERIF PYTHONPATH={TREE} /venv/bin/python -m pytest -q -p no:cacheprovider -x 2>&1 | tail -1")
             res["test_suite_with_change"] = t.stdout.strip()
         res["checks"] = {}
         for pid in pids:
             t0 = time.time()
-            c = sh(f"cd /verif && ./check {pid} --tier {tier}")
+            c = sh(f"cd /verif && VERIF_REPO={TREE} VERIF_EVID_SUFFIX=.seedtest ./check {pid} --tier {tier}")
             lines = [l for l in c.stdout.splitlines() if l.startswith("VIOLATION") or l.startswith("  [") or l.startswith("MACHINERY")]
             res["checks"][pid] = {"exit": c.returncode, "detected": c.returncode == 1, "wall_s": round(time.time() - t0, 1),
                                   "summary": [l.strip()[:300] for l in lines if l.startswith("  [")][:6] or [l[:300] for l in lines[:3]]}
 finally:
-    sh("git -C /repo checkout -- . && git -C /repo reset -q")
-    sh("git -C /repo status --porcelain --untracked-files=no")
+    if SCRATCH:
+        sh(f"git -C /repo worktree remove --force {TREE}; git -C /repo worktree prune")
+    else:
+        sh("git -C /repo checkout -- . && git -C /repo reset -q")
 mp = os.path.join(dst, "meta.json")
 meta = json.load(open(mp)) if os.path.exists(mp) else {}
 meta.setdefault("runs", []).append(res)
